@@ -2,7 +2,7 @@ import EupsModel.Lemmas.PathAlg
 /-! C12 — path-variable commands obey list algebra.  Property theorems only (helper lemmas live in
 `Lemmas/PathAlg.lean`, the model in `Model/PathAlg.lean`). -/
 namespace EupsModel.C12
-open EupsModel.PathAlg
+open EupsModel EupsModel.PathAlg
 variable {α : Type} [DecidableEq α]
 
 /-- envPrepend puts its value first. -/
@@ -65,5 +65,92 @@ theorem sequence_nodup (acts : List (Bool × Bool × α)) (old : List α) :
 /-- Non-vacuity: a populated list with duplicates, prepend an element that is present. -/
 example : applyL false true [3] [1, 3, 1, 2] = [3, 1, 2] := by decide
 example : applyL true false [3] (applyL true true [3] [1, 1, 2]) = [1, 2] := by decide
+
+/-! ## string level -/
+
+/-- String level: on a variable whose value is a `c`-separated list of well-formed pieces, the real
+string-manipulating action computes exactly the list-level operation. -/
+theorem string_level_is_list_level (c : Nat) (hc : c ≠ 36) (append fwd : Bool) (var v : Str)
+    (oldl : List Str) (env : Env)
+    (hold : ∀ e ∈ oldl, GoodPiece c e) (hv : GoodPiece c v)
+    (henv : (env.get var).getD [] = join [c] oldl) :
+    envPrepend append fwd var v [c] env
+      = .ok (env.set var (join [c] (applyL append fwd [v] oldl))) :=
+  envPrepend_lifts c hc append fwd var v oldl env hold hv henv
+
+/-- `$?{VAR}` with VAR undefined: the action does nothing, in either direction. -/
+theorem optional_guard (append fwd : Bool) (var value delim : Str) (env : Env)
+    (hpre : startsWith value delim = false) (happ : endsWith value delim = false)
+    (h : expand env value = .skip) :
+    envPrepend append fwd var value delim env = .ok env := by
+  unfold envPrepend
+  simp [hpre, happ, h]
+
+theorem optional_guard_envSet (var value : Str) (env : Env) (h : expand env value = .skip) :
+    envSet true var value env = .ok env := by
+  simp [envSet, h]
+
+/-- the guard really is about an undefined optional reference: `$?{K}...` with K undefined skips -/
+theorem optional_undefined_skips (env : Env) (key rest : Str)
+    (hk : ∀ ch ∈ key, ch ≠ 45 ∧ ch ≠ 125) (hundef : env.get key = none) :
+    expand env (36 :: 63 :: 123 :: key ++ 125 :: rest) = .skip := by
+  have htw : ∀ (k : Str), (∀ ch ∈ k, ch ≠ 45 ∧ ch ≠ 125) →
+      takeWhileNot (fun c => c == 45 || c == 125) (k ++ 125 :: rest) = (k, 125 :: rest) := by
+    intro k hk
+    induction k with
+    | nil => simp [takeWhileNot]
+    | cons a as ih =>
+      have ha := hk a (by simp)
+      have := ih (fun ch hch => hk ch (by simp [hch]))
+      simp [takeWhileNot, ha.1, ha.2, this]
+  simp [expand, expandGo, varAt, htw key hk, hundef]
+
+/-- envSet sets exactly the given value (no references in it). -/
+theorem envset_exact (var v : Str) (env : Env) (hne : v ≠ []) (hd : 36 ∉ v) :
+    envSet true var v env = .ok (env.set var v) := by
+  cases v with
+  | nil => exact absurd rfl hne
+  | cons a as => simp [envSet, expand_no_dollar env _ hd, setEnvI, interp_no_dollar env _ _ hd]
+
+/-- ... and the variable then reads back as that value; unsetup removes the variable. -/
+theorem envset_get (var v : Str) (env : Env) (hne : v ≠ []) (hd : 36 ∉ v) :
+    ∃ env', envSet true var v env = .ok env' ∧ env'.get var = some v :=
+  ⟨_, envset_exact var v env hne hd, Env.get_set_same _ _ _⟩
+
+theorem envset_unsetup (var v : Str) (env : Env) :
+    ∃ env', envSet false var v env = .ok env' ∧ env'.get var = none :=
+  ⟨env.unset var, by simp [envSet], Env.get_unset_same _ _⟩
+
+example : expand [] (Str.ofString "$?{NOPE}/z") = .skip := by decide
+example : GoodPiece 58 (Str.ofString "/opt/p/1.0/bin") := by unfold GoodPiece; decide
+
+
+/-- MANPATH style: a leading and/or trailing delimiter written around the value asks for an empty
+first / last element; on well-formed values the new value of the variable is exactly the list
+result with the requested empty elements re-attached (and never doubled). -/
+theorem manpath_flags (c : Nat) (hc : c ≠ 36) (append pre app : Bool) (var v : Str)
+    (oldl : List Str) (env : Env)
+    (hold : ∀ e ∈ oldl, GoodPiece c e) (hv : GoodPiece c v)
+    (henv : (env.get var).getD [] = join [c] oldl) :
+    envPrepend append true var (flagged c pre app v) [c] env
+      = .ok (env.set var (flagged c pre app (join [c] (applyL append true [v] oldl)))) :=
+  envPrepend_lifts_flags c hc append pre app var v oldl env hold hv henv
+
+/-- ... so the value starts (ends) with the delimiter iff a leading (trailing) one was written. -/
+theorem manpath_leading_iff (c : Nat) (pre app : Bool) (l : List Str) (hne : l ≠ [])
+    (h : ∀ e ∈ l, GoodPiece c e) :
+    startsWith (flagged c pre app (join [c] l)) [c] = pre := by
+  cases pre
+  · have hsw := startsWith_join_good c l hne h
+    obtain ⟨p, x, hp, _⟩ := getLast_join_good c l hne h
+    cases hJ : join [c] l with
+    | nil => rw [hJ] at hp; exact absurd hp (by simp)
+    | cons y ys =>
+      rw [hJ] at hsw
+      have hy : (c == y) = false := by simpa [startsWith, List.isPrefixOf] using hsw
+      simp [flagged, startsWith, List.isPrefixOf, hy]
+  · simp [flagged, startsWith, List.isPrefixOf]
+
+example : flagged 58 true false (Str.ofString "/usr/man") = Str.ofString ":/usr/man" := by decide
 
 end EupsModel.C12
